@@ -1,6 +1,7 @@
 INIT GInit
 NEXT GNext
 CONSTANTS
+  GapSet = "base"
   Budget = 1000000
   Mutants = TRUE
   GenFamilies = {"canon", "gap1", "all", "sep", "quote", "num", "mut"}
